@@ -245,13 +245,9 @@ func runSchedule(t *testing.T, sid int, sched []drv.Step) []drv.Step {
 					data = append(data, []any{pubkeyNum(k), sigs})
 				}
 				sort.Slice(data, func(a, b int) bool { return fmt.Sprint(data[a][0]) < fmt.Sprint(data[b][0]) })
-				e := drv.Step{"i": r.i, "st": r.st, "err": errClass(r.err), "data": data}
-				if r.err != nil && errClass(r.err) == "other" {
-					e["text"] = r.err.Error()
-				}
 				rets = append(rets, []any{r.i, r.st, errClass(r.err), data})
-				if txt, ok := e["text"]; ok {
-					ev["errtext"] = txt
+				if errClass(r.err) == "other" {
+					ev["errtext"] = r.err.Error()
 				}
 			}
 			ev["sent"], ev["rets"] = sent, rets
